@@ -1752,11 +1752,17 @@ impl ParsedReturnType {
                                 }
                             }
                             _ => {
-                                if ident == result_ident {
+                                // A plain `Result` must still be wrapped when a result alias
+                                // is being used for integer results.
+                                if ident == result_ident || ident == "Result" {
                                     let mut args = args.args.iter();
 
-                                    let to_match =
-                                        (args.next(), args.next(), args.next(), int_result);
+                                    let to_match = (
+                                        args.next(),
+                                        args.next(),
+                                        args.next(),
+                                        int_result && ident == result_ident,
+                                    );
 
                                     std::mem::drop(args);
 
